@@ -13,12 +13,12 @@ META = {
                    "points is G G^T (all SPD matrices), symbolic targets, noises and mean parameters. z3 proves (a) the fantasy "
                    "model's predictive mean/covariance = the explicit conditional on the concatenated data, (b) the carried caches "
                    "satisfy their defining equations on the full data (A_full * mean_cache = y_full - m, A_full * R R^T = I), "
-                   "(c) the source model's predictions after fantasizing are identical terms, and its parameters / training "
+                   "(b') IndependentModelList.get_fantasy_model routes every member's inputs / targets / noise to that member, (c) the source model's predictions after fantasizing are identical terms, and its parameters / training "
                    "tensors / cache entries are the same objects with the same shapes.",
     "bounds": {"quick": "n<=2 train, f<=2 fantasy, m<=2 test; patterns: plain, fantasy-batch with shared inputs (2 x f), model batch 2; "
                         "Gaussian and fixed-noise (call-time noise) likelihoods; fast_pred_var x detach_test_caches; depth 2",
                "thorough": "n<=3, f<=2, m<=2, all four settings combinations for every pattern"},
-    "outside": ["per-fantasy-batch inputs (f x b with own inputs)", "multitask fantasies", "WISKI / interpolated fantasy strategy (C09)",
+    "outside": ["IndependentModelList fantasies beyond two members with (n,f,m) = (2,1,1),(1,2,1)", "per-fantasy-batch inputs (f x b with own inputs)", "multitask fantasies", "WISKI / interpolated fantasy strategy (C09)",
                 "CG / Lanczos paths", "rounding"],
     "assumptions": ["reals for floats", "Cholesky succeeds without jitter",
                     "linear_operator.utils.pinverse.stable_pinverse (Householder QR) is replaced by its contract A^-1 for the square "
@@ -165,6 +165,81 @@ def fantasy(S, n, f, m, lik, cfg, pattern, depth):
                 S.prove_eq(A1 @ (Rb @ Rb.T), eye(n1), "carried covar_cache: A_full R R^T = I %s" % (list(b),))
 
 
+def model_list_fantasy(S, lik, cfg):
+    """IndependentModelList.get_fantasy_model: member k of the fantasy list = member k conditioned on ITS OWN fantasy data
+       (routing of inputs / targets / per-member noise), source list untouched"""
+    sizes = [(2, 1, 1), (1, 2, 1)]  # (n, f, m) per member
+    mem = []
+    for k, (n, f, m) in enumerate(sizes):
+        N = n + f + m
+        x, xf, xs = labels(0, n), labels(n, n + f), labels(n + f, N)
+        y, yf = S.randn(n), S.randn(f)
+        if lik == "gaussian":
+            likelihood = gpytorch.likelihoods.GaussianLikelihood()
+        else:
+            likelihood = gpytorch.likelihoods.FixedNoiseGaussianLikelihood(S.rand(n, lo=0.05, hi=0.5))
+        Gs, Gc = S.factor("g%d" % k, N)
+        table = torch.zeros(N, N)
+        model = StubGP(x, y, likelihood, TableKernel(table), make_mean("constant"))
+        for p in model.parameters():
+            p.requires_grad_(False)
+        model.eval(); likelihood.eval()
+        Y, YF = S.sym_tensor(y, "y%d" % k), S.sym_tensor(yf, "yf%d" % k)
+        declare_params(S, model.mean_module, "mean%d_" % k)
+        declare_params(S, likelihood, "lik%d_" % k)
+        nf = None
+        if lik == "fixed":
+            S.sym_tensor(likelihood.noise_covar.noise, "fixednoise%d" % k, lo=1e-6)
+            nf = S.rand(f, lo=0.05, hi=0.5)
+            NF = S.sym_tensor(nf, "fantnoise%d" % k, positive=True)
+        mem.append(dict(n=n, f=f, m=m, N=N, x=x, xf=xf, xs=xs, y=y, yf=yf, Y=Y, YF=YF, lik=likelihood, Gs=Gs, Gc=Gc, table=table,
+                        model=model, nf=nf, NF=NF if lik == "fixed" else None))
+    with S.mode():
+        for d in mem:
+            n, f, N = d["n"], d["f"], d["N"]
+            Ntr = n + f
+            Sd = np.empty((Ntr,), dtype=object)
+            Sd[:n] = _noise_diag(d["lik"], d["x"], (), n)
+            if lik == "gaussian":
+                Sd[n:] = as_sym_arr(SH.get(d["lik"].noise)).reshape(-1)[0]
+            else:
+                Sd[n:] = d["NF"]
+            J = d["Gs"] @ d["Gs"].T
+            Kk = J.copy()
+            for i in range(Ntr):
+                Kk[i, i] = Kk[i, i] - Sd[i]
+            with torch.no_grad():
+                d["table"].copy_(d["Gc"] @ d["Gc"].T)
+                for i in range(Ntr):
+                    d["table"][i, i] -= float(Sd[i].c)
+            SH.put(d["table"], Kk, check=True)
+            d["J"], d["K"] = J, Kk
+            d["mall"] = as_sym_arr(SH.get(d["model"].mean_module(labels(0, N))))
+        ml = gpytorch.models.IndependentModelList(*[d["model"] for d in mem])
+        with settings_ctx(cfg), pinverse_by_contract():
+            before = ml(*[d["xs"] for d in mem])
+            b_mean = [as_sym_arr(SH.get(o.mean)).copy() for o in before]
+            b_cov = [as_sym_arr(SH.get(o.covariance_matrix)).copy() for o in before]
+            kw = {"noise": [d["nf"] for d in mem]} if lik == "fixed" else {}
+            fml = S.must_not_raise("IndependentModelList.get_fantasy_model",
+                                   lambda: ml.get_fantasy_model([d["xf"] for d in mem], [d["yf"] for d in mem], **kw))
+            S.check_concrete(isinstance(fml, gpytorch.models.IndependentModelList) and len(fml.models) == len(mem), "fantasy list has one member per model")
+            outs = fml(*[d["xs"] for d in mem])
+            after = ml(*[d["xs"] for d in mem])
+            for k, d in enumerate(mem):
+                Ntr = d["n"] + d["f"]
+                Gtr = d["Gs"][:Ntr, :Ntr]
+                Ksx = d["K"][Ntr:, :Ntr]
+                r = (np.concatenate([d["Y"], d["YF"]]) - d["mall"][:Ntr]).reshape(Ntr, 1)
+                alpha = spd_solve(Gtr, r)
+                Bm = spd_solve(Gtr, Ksx.T)
+                S.prove_eq(outs[k].mean, (Ksx @ alpha).reshape(-1) + d["mall"][Ntr:], "member %d: fantasy mean = conditional on its own train+fantasy data" % k)
+                S.prove_eq(outs[k].covariance_matrix, d["K"][Ntr:, Ntr:] - Ksx @ Bm, "member %d: fantasy covariance" % k)
+                S.prove_eq(after[k].mean, b_mean[k], "member %d: source prediction mean unchanged" % k)
+                S.prove_eq(after[k].covariance_matrix, b_cov[k], "member %d: source prediction covariance unchanged" % k)
+                S.check_concrete(tuple(d["model"].train_targets.shape) == (d["n"],), "member %d: source targets untouched" % k)
+
+
 def scenarios(tier, seed):
     out = []
     def add(**p):
@@ -179,6 +254,8 @@ def scenarios(tier, seed):
         add(n=1, f=1, m=1, lik="gaussian", cfg=cfgs[0], pattern="model_batch", depth=1)
         add(n=2, f=1, m=1, lik="gaussian", cfg=cfgs[0], pattern="plain", depth=2)
         add(n=1, f=1, m=1, lik="fixed", cfg=cfgs[2], pattern="plain", depth=2)
+        for lik_ in ("gaussian", "fixed"):
+            out.append({"sid": "model_list_fantasy:lik=%s,cfg=%s" % (lik_, cfg_id(cfgs[0])), "fn": "model_list_fantasy", "params": {"lik": lik_, "cfg": cfgs[0]}})
     else:
         for cfg in cfgs:
             for lik in ("gaussian", "fixed"):
@@ -187,4 +264,6 @@ def scenarios(tier, seed):
                 add(n=2, f=2, m=1, lik=lik, cfg=cfg, pattern="fbatch_shared", depth=1)
             add(n=2, f=1, m=1, lik="gaussian", cfg=cfg, pattern="model_batch", depth=1)
             add(n=2, f=1, m=1, lik="gaussian", cfg=cfg, pattern="fbatch_shared", depth=2)
+            for lik_ in ("gaussian", "fixed"):
+                out.append({"sid": "model_list_fantasy:lik=%s,cfg=%s" % (lik_, cfg_id(cfg)), "fn": "model_list_fantasy", "params": {"lik": lik_, "cfg": cfg}})
     return out
